@@ -43,7 +43,7 @@ def post_output_geobox(args, kw, res, exc, snap):
     src, crs = p["gbox"], p["crs"]
     if not isinstance(src, GeoBox):
         return _mon.skip("compute_output_geobox", "GCP source")
-    if src.crs is None or 0 in src.shape or src.shape[0] * src.shape[1] > 700000:
+    if src.crs is None or 0 in src.shape or src.shape[0] * src.shape[1] > 200_000_000:
         return _mon.skip("compute_output_geobox", "no CRS / empty / too large")
     if p["round_resolution"] is not None:
         return _mon.skip("compute_output_geobox", "round_resolution")
@@ -55,8 +55,17 @@ def post_output_geobox(args, kw, res, exc, snap):
     out = res
     ny, nx = src.shape
     # source pixel corners -> lon/lat and -> output CRS with the oracle's transformer
-    jj, ii = np.meshgrid(np.arange(nx + 1, dtype="float64"), np.arange(ny + 1, dtype="float64"))
-    if jj.size > 70000:
+    if (nx + 1) * (ny + 1) > 2_000_000:
+        # continental rasters (tens of millions of pixels): every corner on the outline and a coarse interior lattice, built without the full grid
+        st = max(7, int(math.sqrt((nx + 1) * (ny + 1) / 250_000)))
+        xs_, ys_ = np.arange(nx + 1, dtype="float64"), np.arange(ny + 1, dtype="float64")
+        lj, li = np.meshgrid(xs_[::st], ys_[::st])
+        jj = np.concatenate([xs_, xs_, np.zeros(ny + 1), np.full(ny + 1, float(nx)), lj.ravel()])
+        ii = np.concatenate([np.zeros(nx + 1), np.full(nx + 1, float(ny)), ys_, ys_, li.ravel()])
+        _mon.obs["continental_sources_outline_plus_lattice"] += 1
+    else:
+        jj, ii = np.meshgrid(np.arange(nx + 1, dtype="float64"), np.arange(ny + 1, dtype="float64"))
+    if jj.ndim == 2 and jj.size > 70000:
         # large rasters: every corner on the outline, every 7th in the interior (evidence says so)
         keep = np.zeros(jj.shape, dtype=bool)
         keep[0, :] = keep[-1, :] = keep[:, 0] = keep[:, -1] = True
@@ -305,7 +314,7 @@ def run(mon: Monitor, tier: str, seed: int, shard: int, nshards: int) -> None:
                 if a_ != b_ and rng.random() < 0.5:
                     call(CRS(a_).transformer_to_crs, CRS(b_), always_xy=False)
                     mon.obs["native_axis_order_transformers_requested_first"] += 1
-        for _ in range(550 if tier == "quick" else 12000):
+        for _ in range(420 if tier == "quick" else 12000):
             r = random.Random(rng.getrandbits(48))
             try:
                 one(mon, r)
@@ -333,6 +342,12 @@ def run(mon: Monitor, tier: str, seed: int, shard: int, nshards: int) -> None:
             for kw_ in ({}, {"resolution": "fit"}, {"tight": True}):
                 call(compute_output_geobox, src_, tgt_, **kw_)
                 mon.obs["rotated_pole_probes"] += 1
+        # continental rasters in tight mode: the footprint's curved edges are sampled by the library, the rim pixels must still be inside (C11-10)
+        for src_, tgt_, kws in [(GeoBox((5400, 13600), Affine(0.025, 0, -170.0, 0, -0.025, 67.5), "EPSG:4326"), "ESRI:54009", ({"tight": True, "resolution": 1000}, {"tight": True, "resolution": 500}, {"tight": True})),
+                                (GeoBox((4000, 5000), Affine(0.01, 0, 110.0, 0, -0.01, -8.0), "EPSG:4326"), "EPSG:3577", ({"tight": True}, {"tight": True, "resolution": 250}))]:
+            for kw_ in kws:
+                call(compute_output_geobox, src_, tgt_, **kw_)
+                mon.obs["continental_tight_probes"] += 1
         for pt, n in [("compute_output_geobox", 350), ("compute_output_geobox|auto|north-up|cross", 20), ("compute_output_geobox|fit|north-up|cross", 10), ("compute_output_geobox|same|north-up|cross", 10),
                       ("compute_output_geobox|explicit|north-up|cross", 10), ("compute_output_geobox|auto|rotated|cross", 8), ("compute_output_geobox|auto|north-up|utm", 5),
                       ("compute_output_geobox|shape|north-up|cross", 2), ("compute_output_geobox|shape|north-up|cross|int", 2), ("compute_output_geobox|identity", 10), ("compute_output_geobox|shape+resolution|north-up|cross", 2), ("compute_output_geobox.tight-ignores-anchor", 12)]:
